@@ -101,6 +101,9 @@ def check_model(base, sc, acc, hist, order):
     with core.Scratch() as d:
         tr = dsgen.make_dataset(d / 'ds', spec)
         try:
+            # the directory is opened twice: the second open reads what the first one cached on disk
+            m = load_model(tr['params_path'])
+            m.close()
             m = load_model(tr['params_path'])
         except Exception as e:
             import traceback
@@ -172,7 +175,7 @@ def check_model(base, sc, acc, hist, order):
                                     exp /= tot
                                     if exp_first is None:
                                         exp_first = (D, exp)
-                                    if np.allclose(data[c][:, D], exp, rtol=1e-5, atol=1e-6):
+                                    if np.allclose(data[c][:, D], exp, rtol=1e-11, atol=1e-12):
                                         ok_any = True
                                         # the accessor gives the same mean (whitened variant)
                                         try:
@@ -181,7 +184,7 @@ def check_model(base, sc, acc, hist, order):
                                             if okm:
                                                 idx = [D.index(int(x)) for x in mw.channel_ids]
                                                 okm = np.allclose(mw.mean_waveforms, exp[:, idx],
-                                                                  rtol=1e-5, atol=1e-6)
+                                                                  rtol=1e-11, atol=1e-12)
                                         except Exception as e:
                                             okm = False
                                         if not okm:
@@ -271,12 +274,14 @@ def make_bases(ctx):
     # the family whose highest template has no spikes
     unused_top = [a for a in itertools.product(range(nt - 1), repeat=ns) if len(set(a)) == nt - 1]
     unused_top = unused_top[ctx.seed % 3::max(1, len(unused_top) // 3)][:3]
-    geos = [('line', 4), ('col14', 14)]
+    geos = [('line', 4), ('col14', 14), ('twoshank_close', 14)]
     for a in list(assigns) + list(unused_top):
         for gi, (geo, nc) in enumerate(geos):
             for wh in ('identity', 'mixing', 'gains'):
                 if not ctx.thorough and (gi + (wh != 'identity')) % 2 != (sum(a) % 2):
                     continue   # quick: geometry and whitening alternate over the bases
+                if geo == 'twoshank_close' and (wh == 'gains' or (not ctx.thorough and sum(a) % 3)):
+                    continue   # two interleaved shanks: a third of the bases in the quick tier
                 if wh == 'gains' and geo != 'col14':
                     continue   # gains matter where the channel set can change (> 12 channels)
                 spec = {'n_spikes': ns, 'n_templates': nt, 'n_channels': nc, 'geometry': geo,
@@ -284,6 +289,9 @@ def make_bases(ctx):
                         'tfeatures': 'absent', 'raw': False, 'fill': ctx.seed, 'nsw': 4,
                         'template_dtype': 'float64' if sum(a) % 3 == 0 else 'float32'}
                 var = ''
+                if geo == 'twoshank_close':
+                    spec['shanks'] = 'two'         # the shank file is there: channels of the other shank
+                    # are close by, but not part of a template's channels
                 if geo == 'line' and sum(a) % 2 == 1:
                     # templates that are exactly flat on some channels (a flat channel is still one of
                     # the template's channels: the threshold is "reaches", and 0 reaches 0)
